@@ -4,7 +4,7 @@ import re
 import os
 from ._std import *
 from .. import mirq as M
-from ..rules import panics, indexguard, intervals
+from ..rules import panics, indexguard, intervals, digitguard
 from ..facts import VERIF, fixture_facts
 from .. import baseline
 
@@ -77,6 +77,26 @@ def guard_holds(fx, rs, fn_suffix, guard, kernel, want):
 
 R9_CONTROL_BAD = {"bad_add", "bad_scale", "bad_index", "bad_abs", "bad_dependent", "bad_guard_helper"}
 R9_CONTROL_GOOD = {"good_add", "good_scale", "good_index", "good_loop", "good_dependent", "good_narrow", "good_flag", "good_flag_int", "good_guard_helper"}
+
+
+def digit_unwraps(run, fx):
+    rule = "R8.digit-unwrap-guard"
+    run.rule(rule, "an unwrapped `char::to_digit(r)` is preceded, in the function that unwraps it or its callees, by a test that "
+                   "implies to_digit(r).is_some() (is_ascii_digit, '0'..='9', is_digit(r' <= r)); a weaker class test "
+                   "(is_numeric, is_alphanumeric, ...) as the only validation is a reachable panic on non-ASCII digits")
+    obl = digitguard.obligations(fx, CRATES)
+    run.analysed["digit_unwrap_obligations"] = len(obl)
+    for f, n, radix, line in obl:
+        key = "%s/to_digit-unwrap#%d" % (f.path, n)
+        loc = "%s:%s" % (f.file, line if isinstance(line, int) else f.line)
+        verdict, why, scope = digitguard.decide(fx, CRATES, f, radix)
+        if verdict == "bad":
+            run.bad(rule, key, "to_digit(%s) is unwrapped in %s but %s" % (radix, f.path, why), loc)
+        elif verdict == "ok":
+            run.ok(rule, key, "%s (%d functions in scope)" % (why, scope), loc)
+        else:
+            run.undecided.append({"rule": rule, "key": key, "why": why})
+            run.ok(rule, key, "not decided: " + why, loc, nontrivial=False)
 
 
 def r9(run, fx):
@@ -386,6 +406,7 @@ def main(tier):
                 ok = False
                 why = "the guard this entry relies on no longer holds: " + gwhy
         run.check(ok, rule, key, "reviewed: " + ent["reason"][:150], "%s in %s: %s" % (kind, f.name, why), loc)
+    digit_unwraps(run, fx)
     r9(run, fx)
     stale = [k for k in review if k not in used and not any(k == "%s/%s#%d" % (f.path, kd, o) for f, kd, o, _, _ in inv)]
     run.analysed["review_entries"] = len(review)
